@@ -534,6 +534,9 @@ Fixpoint sync_ips (w : world) (p : pod) (ips : list N) (fl : faults) (idx : nat)
   | x :: rest =>
       let w' := match by_ip (w_ipam w) x with
                 | Some e => if Keys.is_empty (e_key e) then
+                              (* F18 (repaired, like F13 in Bind): not while the key holds an IP stored for another UID *)
+                              if existsb (fun kv => negb (Keys.is_empty (e_uid (snd kv))) && negb (str_eqb (e_uid (snd kv)) (pd_uid p)))
+                                         (by_key (w_ipam w) (pod_key p)) then w else
                               let a := {| a_policy := policy_of p; a_node := pd_node p; a_uid := pd_uid p |} in
                               set_ipam w (fst (alloc_specific (w_ipam w) (pod_key p) x a (bool_decide (f_store fl = Some idx))))
                             else w
